@@ -34,7 +34,23 @@ var (
 	c16D       []rune           // plain upper/lower pairs (ASCII, Latin-1, Greek, Cyrillic)
 	c16InD     map[rune]bool
 	c16CaseTab []rune // runes whose SimpleFold/ToLower are shipped with IgnoreCase cases (closed under both)
+	c16InCaseTab map[rune]bool
+	c16SparseOnce sync.Once
+	c16SparseTab  []rune // every code point on which SimpleFold or ToLower is not the identity (legs 1608/1609)
 )
+
+// c16SparseCase: the case table for IgnoreCase classes with complement-shaped ranges, where the model asks
+// for SimpleFold of every code point of the range: all code points that are not fixed points of both functions.
+func c16SparseCase() []rune {
+	c16SparseOnce.Do(func() {
+		for r := rune(0); r <= 0x10ffff; r++ {
+			if unicode.SimpleFold(r) != r || unicode.ToLower(r) != r {
+				c16SparseTab = append(c16SparseTab, r)
+			}
+		}
+	})
+	return c16SparseTab
+}
 
 func c16Setup() {
 	c16Once.Do(func() {
@@ -86,6 +102,7 @@ func c16Setup() {
 		}
 		sort.Slice(work, func(i, j int) bool { return work[i] < work[j] })
 		c16CaseTab = work
+		c16InCaseTab = seen
 	})
 }
 
@@ -364,6 +381,7 @@ type c16Facts struct {
 	hasShort   bool
 	hasProp    bool
 	bigRange   bool
+	ciBig      bool // IgnoreCase with a complement-shaped range (upper endpoint beyond the BMP)
 }
 
 func (s *c16Syn) facts(m c16Mode, f *c16Facts, depth int) {
@@ -377,6 +395,9 @@ func (s *c16Syn) facts(m c16Mode, f *c16Facts, depth int) {
 			f.endpoints = append(f.endpoints, it.a, it.b)
 			if it.b-it.a > 0x1000 {
 				f.bigRange = true
+			}
+			if m.ci && it.b >= 0x10000 {
+				f.ciBig = true
 			}
 		case c16Digit:
 			f.hasShort = true
@@ -482,8 +503,13 @@ func c16GenSyn(rg *Rng, m c16Mode, depth int) *c16Syn {
 			}
 			near = append(near, a, b)
 			s.items = append(s.items, c16Item{kind: c16Range, a: a, b: b})
-		case x < 68 && !m.ci: // complement-shaped ranges: exercise canonicalize's normal forms
+		case x < 68 && (!m.ci || rg.Chance(40)): // complement-shaped ranges: exercise canonicalize's normal forms
 			g := c16RandRune(rg, m, near)
+			if m.ci {
+				// IgnoreCase domain: everything but a run of at most three ASCII characters (the range up to U+10FFFF
+				// starts at or below U+0080, and 'i' or 'I' stays a member: C16's ci_syn_ok_ext)
+				g = rune(rg.Intn(126))
+			}
 			h := g + rune(rg.Intn(3))
 			if h > 0x10ffff {
 				h = 0x10ffff
@@ -579,13 +605,14 @@ func bitsOf(rs []rune, f func(rune) bool) []int64 {
 
 func legC16Class(c *Ctx) {
 	c16Setup()
-	c.Rule("random bracket expressions (1-12 members: characters, ranges, complement-shaped ranges, \\d\\s\\w\\D\\S\\W, \\p{..}/\\P{..} over 40 category/script/property names, POSIX names under RE2, negation, nested subtraction to depth 3) x modes {none, IgnoreCase, ECMAScript, RE2, IgnoreCase+ECMAScript, IgnoreCase+RE2} x ASCII bitmap on/off x runes {U+0000-U+024F, every range endpoint +-1 of the expression and of the parsed class, edge runes, sampled BMP/astral/surrogates, U+10FFFF}; under IgnoreCase ranges have ASCII endpoints, single members are ASCII or plain upper/lower pairs of ASCII/Latin-1/Greek/Cyrillic; non-trivial = a class with at least two members, negation or subtraction (distinct by pattern text and mode)")
+	c.Rule("random bracket expressions (1-12 members: characters, ranges, complement-shaped ranges, \\d\\s\\w\\D\\S\\W, \\p{..}/\\P{..} over 40 category/script/property names, POSIX names under RE2, negation, nested subtraction to depth 3) x modes {none, IgnoreCase, ECMAScript, RE2, IgnoreCase+ECMAScript, IgnoreCase+RE2} x ASCII bitmap on/off x runes {U+0000-U+024F, every range endpoint +-1 of the expression and of the parsed class, edge runes, sampled BMP/astral/surrogates, U+10FFFF}; under IgnoreCase ranges have ASCII endpoints or are complement-shaped (everything but a run of 1-3 ASCII characters, [\\x01-\\x{10FFFF}], [\\x00-\\x{10FFFE}], [\\x00-\\x{10FFFF}]: the classes canonicalize rewrites to a negated normal form after case folding; for these the model gets SimpleFold/ToLower of every code point), single members are ASCII or plain upper/lower pairs of ASCII/Latin-1/Greek/Cyrillic; non-trivial = a class with at least two members, negation or subtraction (distinct by pattern text and mode)")
 	nClasses := c.N(50, 1250) // per leg and mode family; four legs run in parallel
 	nSample := c.N(2000, 10000)
 	gates := map[string]bool{}
 	if c.Leg == "c16-class-0" {
 		c16CheckFoldD(c)
 		c16CheckSpaceFacts(c)
+		c16CheckOutside(c)
 		for _, w := range c16Corpus() {
 			c16OneClass(c, w.m, nSample, gates, w.syn)
 		}
@@ -600,7 +627,10 @@ func legC16Class(c *Ctx) {
 		}
 		c.Flush()
 	}
-	for _, g := range []string{"binary-search", "subtraction", "nested-subtraction", "negated", "anything", "category", "negated-category", "posix", "bitmap-nonempty", "singleton", "singleton-inverse", "linear-scan"} {
+	if c.Leg == "c16-class-0" {
+		c.Gate("ci-flipped-after-fold", gates["ci-flipped-after-fold"])
+	}
+	for _, g := range []string{"binary-search", "subtraction", "nested-subtraction", "negated", "anything", "category", "negated-category", "posix", "bitmap-nonempty", "singleton", "singleton-inverse", "linear-scan", "ci-complement"} {
 		c.Gate(g, gates[g])
 	}
 }
@@ -716,8 +746,18 @@ func c16OneClass(c *Ctx, m c16Mode, nSample int, gates map[string]bool, syn *c16
 	}
 	dom = dedupRunes(dom)
 	var caseRunes []rune
+	legElab, legDenote := 1602, 1603
 	if m.ci {
 		caseRunes = c16CaseTab
+		if facts.ciBig {
+			// the model folds every code point of [..-\x{10FFFF}]: sparse table, fixed points left out
+			caseRunes = c16SparseCase()
+			legElab, legDenote = 1608, 1609
+			gates["ci-complement"] = true
+			if _, _, _, negate, _, _, _ := syntax.VerifCharSetFields(cs); negate && !syn.neg {
+				gates["ci-flipped-after-fold"] = true
+			}
+		}
 	}
 	oracle := c16EncOracle(cats, dom, caseRunes)
 	domEnc := encRunes(dom)
@@ -780,7 +820,7 @@ func c16OneClass(c *Ctx, m c16Mode, nSample int, gates map[string]bool, syn *c16
 	synEnc := syn.enc(nil)
 	in2 := append(append(append([]int64{}, oracle...), m.bits()), synEnc...)
 	c.Add(&Case{Desc: desc + " [elab = exported class " + cs.String() + "]", Key: key, Class: cl,
-		ModelLeg: 1602, ModelIn: in2, ImplOut: append([]int64{0}, encPlain...)})
+		ModelLeg: legElab, ModelIn: in2, ImplOut: append([]int64{0}, encPlain...)})
 	// 1603: set algebra on the generator's expression
 	guard := ""
 	if facts.ciNegCase {
@@ -788,7 +828,7 @@ func c16OneClass(c *Ctx, m c16Mode, nSample int, gates map[string]bool, syn *c16
 	}
 	in3 := append(append(append(append([]int64{}, oracle...), m.bits()), synEnc...), domEnc...)
 	c.Add(&Case{Desc: desc + " [denote]", Key: key, Class: cl, Guard: guard,
-		ModelLeg: 1603, ModelIn: in3, ImplOut: inPlain})
+		ModelLeg: legDenote, ModelIn: in3, ImplOut: inPlain})
 
 	// ---- runes that are not code points (only reachable through []rune inputs): the model must agree
 	// with the implementation; set algebra is claimed for valid runes only (known finding rune_out_of_range)
@@ -936,7 +976,50 @@ func c16Corpus() []c16Witness {
 		{&c16Syn{items: []c16Item{prop(false, "Lowercase_Letter"), ch('1')}}, ci},
 		{&c16Syn{items: []c16Item{prop(false, "Titlecase_Letter")}, sub: &c16Syn{items: []c16Item{prop(false, "Lu")}}}, ci},
 		{&c16Syn{items: []c16Item{prop(false, "Ll"), ch('1')}, sub: &c16Syn{items: []c16Item{rg('A', 'F')}}}, ci},
+		// dd13520: the finished class was normalised to a negated form BEFORE case folding; folding the excluded run
+		// also excluded the case partner of a member named explicitly: (?i)[\x00-\x60b-\x{10FFFF}] names 'A' but
+		// matched neither "a" nor "A"
+		{&c16Syn{items: []c16Item{rg(0, 0x60), rg('b', 0x10ffff)}}, ci},
+		{&c16Syn{items: []c16Item{rg(0, 'j'), rg('l', 0x10ffff)}}, ci},
+		{&c16Syn{items: []c16Item{rg(0, '@'), rg('B', 0x10ffff)}}, ci}, // names 'a' but not 'A': needs addCaseEquivalences (not only addLowercase) before the flip
+		{&c16Syn{items: []c16Item{rg(1, 0x10ffff)}}, ci},
+		{&c16Syn{items: []c16Item{rg(0, 0x10fffe)}}, ci},
+		{&c16Syn{items: []c16Item{rg(0, 'Z'), rg('\\', 0x10ffff)}}, ci},                                                  // flips after folding: [^\x5b]
+		{&c16Syn{neg: true, items: []c16Item{rg(0, 0x60), rg('b', 0x10ffff)}}, ci},                                         // [^...] of everything
+		{&c16Syn{items: []c16Item{rg('a', 'z')}, sub: &c16Syn{items: []c16Item{rg(0, 0x60), rg('c', 0x10ffff)}}}, ci},     // subtracted class folded three times
+		{&c16Syn{items: []c16Item{rg(0, 0x60), rg('b', 0x10ffff)}, sub: &c16Syn{items: []c16Item{ch('B')}}}, ci},
+		{&c16Syn{items: []c16Item{rg(0, 0x60), rg('b', 0x10ffff), prop(false, "Nd")}}, c16Modes[5]},                        // IgnoreCase+RE2
+		{&c16Syn{items: []c16Item{{kind: c16Digit}, rg(0, '/'), rg('1', 0x10ffff)}}, ci},                                   // third normal form (categories) after folding
 	}
+}
+
+// the hypothesis outside_ok of C16_char_in_denote_partial_ignorecase (complement-shaped ranges under IgnoreCase), on
+// every code point outside the generated table: the SimpleFold orbit closes within orbit_fuel = 8 steps and never
+// enters the table
+func c16CheckOutside(c *Ctx) {
+	c16Setup()
+	cs := &Case{Desc: "oracle fact outside_ok: the unicode.SimpleFold orbit of every code point outside the table of coq/Model/FoldD.v closes within 8 steps and stays outside the table (all code points)", Class: "oracle-fact"}
+	for r := rune(0); r <= 0x10ffff && cs.Direct == ""; r++ {
+		if c16InCaseTab[r] {
+			continue
+		}
+		x, closed := r, false
+		for k := 0; k < 8; k++ {
+			x = unicode.SimpleFold(x)
+			if x == r {
+				closed = true
+				break
+			}
+			if x < 0 || x > 0x10ffff || c16InCaseTab[x] {
+				cs.Direct = fmt.Sprintf("oracle hypothesis outside_ok violated: the orbit of %U reaches %U", r, x)
+				break
+			}
+		}
+		if !closed && cs.Direct == "" {
+			cs.Direct = fmt.Sprintf("oracle hypothesis outside_ok violated: the orbit of %U does not close within 8 steps", r)
+		}
+	}
+	c.Add(cs)
 }
 
 // the Unicode facts theorem C16_may_overlap_sound assumes (space_facts), on every code point
